@@ -176,16 +176,18 @@ def copy_db(src, dst):
             shutil.copy(src + suf, dst + suf)
 
 
-def real_run(path, sources=None):
+def real_run(path, sources=None, commit=True):
     """the real run_migrations, driven as SqliteWorkflowStore.run_migrations(db_path) drives it
-    (connect, run, commit, close in `finally`); returns None or the exception it raised"""
+    (connect, run, commit, close in `finally`) - or, commit=False, as DBOSRuntime.run_migrations drives it
+    (connect, run, close: the caller never commits); returns None or the exception it raised"""
     conn = sqlite3.connect(path, timeout=30.0)
     try:
         if sources is None:
             MIG.run_migrations(conn)
         else:
             MIG.run_migrations(conn, sources)
-        conn.commit()
+        if commit:
+            conn.commit()
         return None
     except Exception as e:  # noqa: BLE001 - the outcome is what is compared
         return e
@@ -433,6 +435,25 @@ def instance_stream(ctx, ws):
                 fails.append(dict(kind="instance", start=label, why="second run changed the database",
                                   before=repr(canon(o1)), after=repr(canon(o2))))
         ctx.count(3, ("instance", label))
+        rm_db(path)
+        if pkg:
+            ws.drop_package(pkg)
+        # the same start, migrated by a caller that closes its connection WITHOUT committing (DBOSRuntime.run_migrations):
+        # what run_migrations did must be durable by itself, and a second run on a new connection finds it done
+        path, pkg = build(kind, k)
+        f1 = real_run(path, commit=False)
+        p1 = observe_path(path)
+        f2 = real_run(path, commit=False)
+        p2 = observe_path(path)
+        if f1 is not None or f2 is not None:
+            fails.append(dict(kind="instance", start=label + " (caller does not commit)",
+                              why="run_migrations raised %r on the %s run of a caller that closes its connection without committing"
+                                  % (f1 if f1 is not None else f2, "first" if f1 is not None else "second")))
+        elif e1 is None and (canon(p1) != canon(o1) or canon(p2) != canon(o1)):
+            fails.append(dict(kind="instance", start=label + " (caller does not commit)",
+                              why="the database left behind by a caller that does not commit differs from the one a committing caller leaves",
+                              committing=repr(canon(o1)), not_committing=repr(canon(p1)), second=repr(canon(p2))))
+        ctx.count(2, ("instance-nocommit", label))
         rm_db(path)
         if pkg:
             ws.drop_package(pkg)
